@@ -104,6 +104,7 @@ type Gen struct {
 	ghostVals   map[string]Val // ghost parameters of the function under verification
 	callRes     map[string]Val // results of contract-carrying calls, by callres_<Func>_<k>
 	callResOrd  map[string]int
+	inDefers    bool // running deferred calls (a deferred Unlock is the regular one)
 	results     []string // result names
 	debugVals   map[string][]debugBinding
 	strLits     map[string]*Term
@@ -839,6 +840,12 @@ func valEq(a, b Val) *Term {
 			cs = append(cs, c)
 		}
 		return And(cs...)
+	case VSlice:
+		// the same slice value: same backing array, offset and length
+		if b.K == VSlice && len(a.F) >= 3 && len(b.F) >= 3 {
+			return And(Eq(a.F[0].T, b.F[0].T), Eq(a.F[1].T, b.F[1].T), Eq(a.F[2].T, b.F[2].T))
+		}
+		return nil
 	}
 	return nil
 }
@@ -905,6 +912,9 @@ func (g *Gen) collectDebug() {
 		for i, in := range b.Instrs {
 			if d, ok := in.(*ssa.DebugRef); ok {
 				if obj := d.Object(); obj != nil {
+					if v, ok := obj.(*types.Var); ok && v.IsField() {
+						continue // a field selection, not a variable of that name
+					}
 					g.debugVals[obj.Name()] = append(g.debugVals[obj.Name()], debugBinding{V: d.X, Block: b, Idx: i, Addr: d.IsAddr, Obj: obj, Def: d.Expr != nil && lhs[d.Expr.Pos()]})
 				}
 			}
